@@ -65,7 +65,7 @@ class C15(Check):
                "steps_with_removed_snapshot": 20, "commits_retried_after_lost_race": 10, "double_registrations": 2}
 
     def gen_cases(self, tier: str, seed: int):
-        n = 96 if tier == "quick" else 1200
+        n = 96 if tier == "quick" else 8000
         for i in range(n):
             yield {"kind": "hist", "i": i, "seed": seed,
                    "clock": ["real", "coarse", "backwards", "frozen", "stepback"][i % 5]}
